@@ -33,4 +33,34 @@ PROPS = {
     },
 }
 
+RETRY_STREAM = {"name": "retry", "quick": 1500, "thorough": 60000}
+RETRY_RULE = ("retry: one request through the real proxy (in-process, loopback) against a scripted fakecass cluster: 1-4 hosts x 1-2 connections, "
+              "every start offset, 15 request kinds (QUERY/EXECUTE/BATCH/graph x idempotent/non-idempotent/unparseable/unknown id/counter, ground truth attached by construction), "
+              "hosts down, per-attempt outcomes drawn from every error kind, write types, read-timeout shapes, connection drop, UNPREPARED with each re-prepare outcome "
+              "(biased 3:1 towards outcomes that continue the retry chain); compared: hosts that received attempts, re-prepares, reply class; "
+              "distinct = distinct scenarios; non-trivial = all (each runs the real proxy end to end)")
+PROPS["C04"] = {
+    "module": "CqlVerif.Props.C04",
+    "gens": ["policy"],
+    "streams": [RETRY_STREAM],
+    "claim": "Lean theorem no_unsafe_reexec over Model/Retry for all plans, outcome scripts, re-prepare outcomes and host failures between attempts; policy decisions are generated from retrypolicy.go on every run; model tied to request.go/clientconn.go by the e2e retry stream, NoUnsafeReexec evaluated on every observed trace",
+    "note": "trusted: Lean kernel, policy translator, hand-written Retry model + e2e correspondence (fakecass scripted outcomes); statement classification is C06's theorem plus the catalogue of request kinds whose ground truth is attached by construction; whether a backend applied a write is outside by definition",
+    "rule": RETRY_RULE,
+    "trusted_base": [KERNEL, DRIVER, HARNESS, "Gen/RetryPolicy.lean regenerated by the boolean-function translator from proxy/retrypolicy.go",
+                     "Model/Retry.lean hand-written; fakecass backend built on the reference go-cassandra-native-protocol codec"],
+    "assumptions": ["the safe-outcome set is the one the property states (unavailable, bootstrapping, read timeout, unprepared)",
+                    "one outcome per attempt that reaches a backend; backends answer a frame at most once"],
+}
+PROPS["C05"] = {
+    "module": "CqlVerif.Props.C05",
+    "gens": ["policy"],
+    "streams": [RETRY_STREAM],
+    "claim": "Lean theorems over the generated policy (closed forms for all retry counts and field values) and over Model/Retry: attempts_bounded, failover_success, terminates_partial (+ spin_witness for the excluded point); tied to the code by the policy translator and the e2e retry stream (ordered host/outcome traces vs the model)",
+    "note": "trusted: Lean kernel, translator, hand-written model + e2e correspondence; leastBusyConn tie-breaking is compared but not specified; terminates only under the stated stability proviso (open finding otherwise)",
+    "rule": RETRY_RULE,
+    "trusted_base": [KERNEL, DRIVER, HARNESS, "Gen/RetryPolicy.lean regenerated by the boolean-function translator from proxy/retrypolicy.go",
+                     "Model/Retry.lean hand-written; fakecass backend built on the reference go-cassandra-native-protocol codec"],
+    "assumptions": ["host set changes between attempts are modelled as a time-indexed down predicate", "re-execution after a successful re-prepare is not counted as a retry"],
+}
+
 NOT_APPLICABLE = {}
